@@ -13,7 +13,7 @@ from __future__ import annotations
 from functools import lru_cache
 import itertools as itt
 
-from ..builder import build_ops, replay_sequence, run_sequences
+from ..builder import NAMES3, build_ops, replay_sequence, run_sequences
 from ..graphs import G, enum_L, enum_O, msep, subsets
 from ..runner import Res
 from ..y0util import V, snapshot, to_y0
@@ -67,6 +67,8 @@ def shards(tier):
     out += [("six", i, i + 512) for i in range(-1024, 1 << 15, 512)]
     # builder phase: one live graph object grown edge by edge, the independencies asked after every insertion
     out += [("build", i) for i in range(len(build_ops()))]
+    # the same over three names with count-preserving edge moves as steps (constant-size in-place edits; seeded C15-g)
+    out += [("buildmv", i) for i in range(len(build_ops(NAMES3)))]
     return out
 
 
@@ -78,7 +80,7 @@ def describe(tier):
             else "graphs: L(1..4) all labelled ADMGs + O(5, <=4 edges)"
         )
         + " + name-ordered five-node DAGs with 4-5 edges + those of all name-ordered five- and six-node DAGs (1024 + 32 768 screened) in which some pair "
-        "has no minimum separator among its nodes' parents (default policy, k in {None, 1, 2}); builder sequences: every sequence of 3 edge insertions over 4 names on one "
+        "has no minimum separator among its nodes' parents (default policy, k in {None, 1, 2}); builder sequences: every sequence of 3 steps over 3 names where a step is an edge insertion or a count-preserving edge move, and every sequence of 3 edge insertions over 4 names on one "
         "live object, k in {None, 1} after every insertion; size limits k in {None, 0..n-2, n}; variants: default (topological) policy, len-lex policy via minimal(), "
         "return_all=True, len-lex policy with return_all on the graph renamed to names of unequal length; PYTHONHASHSEED in "
         + str(HASH_SEEDS[tier])
@@ -256,6 +258,10 @@ def work(shard, tier, seed):
     if shard[0] == "build":
         if hs == 0:
             res.states += run_sequences(shard[1], 3, _builder_judge(res))
+        return res
+    if shard[0] == "buildmv":
+        if hs == 0:
+            res.states += run_sequences(shard[1], 3, _builder_judge(res), names=NAMES3, moves=True)
         return res
     if shard[0] == "six":
         if hs == 0:
